@@ -56,6 +56,8 @@ func (s *Spec) Atoms(o LayoutOpts) []Atom {
 			add('O', t.Tag)
 			add('O', ">")
 			add('O', t.Name)
+		} else if IsLit(t.Name) {
+			add('O', t.Name) // %token'+' is legal: the quote ends the keyword
 		} else {
 			add('W', t.Name)
 		}
@@ -65,8 +67,14 @@ func (s *Spec) Atoms(o LayoutOpts) []Atom {
 	}
 	for _, p := range s.Prec {
 		add('W', "%"+p.Assoc)
-		for _, t := range p.Toks {
-			add('W', t)
+		prevLit := false
+		for i, t := range p.Toks {
+			if IsLit(t) || (i > 0 && prevLit) {
+				add('O', t)
+			} else {
+				add('W', t)
+			}
+			prevLit = IsLit(t)
 		}
 	}
 	for _, t := range s.Types {
@@ -116,7 +124,11 @@ func (s *Spec) Atoms(o LayoutOpts) []Atom {
 		}
 		if r.Prec != "" {
 			add('O', "%prec")
-			add('W', r.Prec)
+			if IsLit(r.Prec) {
+				add('O', r.Prec)
+			} else {
+				add('W', r.Prec)
+			}
 			prevWord = !IsLit(r.Prec)
 		}
 		if r.HasAct || r.Action != "" {
